@@ -435,7 +435,10 @@ fn step(s: &mut State, t: &mut Tape) -> Result<Option<&'static str>, Failure> {
                         return Ok(None);
                     }
                     let k = cand[t.below(cand.len())].clone();
-                    if op != 10 {
+                    // the same conversion asked for through Table::insert over the existing key (which
+                    // re-spells the key, so nothing of F21 applies)
+                    let via_insert = op == 11 && t.chance(1, 3);
+                    if op != 10 && !via_insert {
                         // known finding F21: the key of a `k = {..}` entry keeps its line decoration
                         // (blank / comment lines before it), which is then printed inside the header
                         // brackets. Try the conversion on a copy first.
@@ -481,14 +484,19 @@ fn step(s: &mut State, t: &mut Tape) -> Result<Option<&'static str>, Failure> {
                         }
                         11 => {
                             let it = std::mem::take(item);
-                            *item = match it.into_table() {
+                            let conv = match it.into_table() {
                                 Ok(tb) => Item::Table(tb),
                                 Err(i) => i,
                             };
+                            if via_insert {
+                                table.insert(&k, conv);
+                            } else {
+                                *item = conv;
+                            }
                             if let Node::Table(x) = &mut mt.entries[idx].1 {
                                 x.kind = TblKind::Std;
                             }
-                            "entry.into_table"
+                            if via_insert { "entry.into_table-via-insert" } else { "entry.into_table" }
                         }
                         _ => {
                             let it = std::mem::take(item);
